@@ -355,6 +355,10 @@ func check(run *kit.Run, c caseT) {
 				}
 			}
 		}
+		// a router-wide middleware: every route is created with it, however the request reaches the route
+		gopts = append(gopts, fox.WithMiddleware(func(next fox.HandlerFunc) fox.HandlerFunc {
+			return func(c fox.Context) { seen["router-wide middleware"] = "ran"; next(c) }
+		}))
 		gopts = append(gopts, fox.WithNoRouteHandler(record("noroute")), fox.WithNoMethodHandler(record("nomethod")), fox.WithOptionsHandler(record("options")),
 			fox.WithMiddlewareFor(fox.RedirectHandler, func(next fox.HandlerFunc) fox.HandlerFunc {
 				return func(c fox.Context) { record("redirect")(c); next(c) }
@@ -467,6 +471,53 @@ func check(run *kit.Run, c caseT) {
 		if seen["route"] != name(want.res) {
 			problems = append(problems, fmt.Sprintf("Context.ClientIP inside the route handler gives %q, the route's resolver gives %q", seen["route"], name(want.res)))
 		}
+		if seen["router-wide middleware"] != "ran" {
+			problems = append(problems, "middleware: the router-wide middleware did not run for a direct request to the route")
+		}
+		mkreq := func(p string) *http.Request {
+			return &http.Request{Method: "GET", Host: host, URL: &url.URL{Path: p}, Header: http.Header{}, RemoteAddr: "192.0.2.9:1", Proto: "HTTP/1.1", ProtoMajor: 1, ProtoMinor: 1}
+		}
+		alt := path + "/"
+		if strings.HasSuffix(path, "/") {
+			alt = strings.TrimSuffix(path, "/")
+		}
+		swallowed := strings.Contains(c.Pattern, "*{c}") // a suffix catch-all swallows the added slash
+		// the same route reached by ignoring the trailing slash (when that is what its options say) runs the same chain
+		if want.ignore && !swallowed {
+			delete(seen, "route")
+			delete(seen, "router-wide middleware")
+			serve("GET", host, alt)
+			if seen["route"] != name(want.res) {
+				problems = append(problems, fmt.Sprintf("Context.ClientIP inside the route handler reached by ignoring the trailing slash gives %q, the route's resolver gives %q", seen["route"], name(want.res)))
+			}
+			if seen["router-wide middleware"] != "ran" {
+				problems = append(problems, "middleware: the router-wide middleware did not run when the route was reached by ignoring the trailing slash")
+			}
+		}
+		// manual dispatch: Lookup hands back the route and a context bound to it, for a direct match and for a
+		// slash-adjusted one alike
+		for _, lp := range []string{path, alt} {
+			if lp == alt && swallowed {
+				continue
+			}
+			r2, cc, tsr := f.Lookup(nil, mkreq(lp))
+			if r2 != rte || tsr != (lp == alt) {
+				problems = append(problems, fmt.Sprintf("Lookup(%q) returned route %p tsr=%t, expected the registered route %p tsr=%t", lp, r2, tsr, rte, lp == alt))
+				if cc != nil {
+					cc.Close()
+				}
+				continue
+			}
+			if cc.Route() != rte || cc.Pattern() != c.Pattern {
+				problems = append(problems, fmt.Sprintf("Lookup(%q) (tsr=%t): the returned context is bound to route %p pattern %q, not to the returned route", lp, tsr, cc.Route(), cc.Pattern()))
+			}
+			delete(seen, "route")
+			r2.Handle(cc)
+			if seen["route"] != name(want.res) {
+				problems = append(problems, fmt.Sprintf("Context.ClientIP inside the route handler dispatched by hand after Lookup(%q) (tsr=%t) gives %q, the route's resolver gives %q", lp, tsr, seen["route"], name(want.res)))
+			}
+			cc.Close()
+		}
 		serve("GET", host, "/definitely/not/registered")
 		if seen["noroute"] != name(g.res) {
 			problems = append(problems, fmt.Sprintf("Context.ClientIP inside the no-route handler gives %q, the router-wide resolver gives %q", seen["noroute"], name(g.res)))
@@ -482,10 +533,6 @@ func check(run *kit.Run, c caseT) {
 				delete(seen, "redirect")
 				serve("POST", host, path)
 				serve("OPTIONS", host, path)
-				alt := path + "/"
-				if strings.HasSuffix(path, "/") {
-					alt = strings.TrimSuffix(path, "/")
-				}
 				serve("GET", host, alt)
 				for _, k := range []string{"nomethod", "options", "redirect"} {
 					if k == "redirect" && strings.Contains(c.Pattern, "*{c}") {
